@@ -234,6 +234,48 @@ func runC18(c *fw.Ctx) {
 			}
 		}
 	}
+	// calls of the built-in functions with 0..5 arguments, each a value, a hole or a stray token
+	{
+		argAlphabet := []string{"1", "\"k\"", "@a", "", "to", "$x", "USD"}
+		fns := []string{"set_tx_meta", "set_account_meta", "meta", "balance", "overdraft"}
+		na := len(argAlphabet)
+		idx := 0
+		for fi, fn := range fns {
+			for l := 0; l <= 5; l++ {
+				total := 1
+				for i := 0; i < l; i++ {
+					total *= na
+				}
+				for k := 0; k < total; k++ {
+					idx++
+					if c.Quick && l == 5 && k%6 != fi {
+						continue
+					}
+					id := fmt.Sprintf("callargs/%s/%d/%d", fn, l, k)
+					if !c.Want(2_200_000+idx, id) {
+						continue
+					}
+					args := make([]string, l)
+					x := k
+					for i := range args {
+						args[i] = argAlphabet[x%na]
+						x /= na
+					}
+					call := fn + "(" + strings.Join(args, ", ") + ")"
+					var t string
+					if fn == "set_tx_meta" || fn == "set_account_meta" {
+						t = "vars { monetary $x }\n" + call
+					} else {
+						t = "vars { monetary $x monetary $y = " + call + " }\nsend $y (source = @a destination = @b)"
+					}
+					c.Count("call_argument_texts", 1)
+					if !checkEditorText(c, t, "call-arguments") {
+						return
+					}
+				}
+			}
+		}
+	}
 	// near-miss names: undeclared variables close to several declared ones
 	for i := 0; i < c.N(300, 6000); i++ {
 		id := "names/" + itoa(i)
